@@ -39,6 +39,8 @@ Expected(e) ==
       [] e.e = "val.mutate"  -> With(store, e.slot, Obs(e)[e.slot])
       [] e.e = "val.eq"      -> store
       [] e.e = "val.selfset" -> store
+      (* the source is mutated through a reference taken before the copy: the copy keeps the source's former value *)
+      [] e.e = "val.copyref" -> With(With(store, e.dst, store[e.src]), e.src, Obs(e)[e.src])
 
 EqFails(e) ==
     LET x == store[e.a]  y == store[e.b] IN
@@ -55,7 +57,7 @@ OpFails(e) ==
     (IF ~Agrees(Obs(e), exp) THEN {"C14"} ELSE {})
     \cup (IF e.e = "val.eq" THEN EqFails(e) ELSE {})
 
-Ops == {"val.make", "val.copy", "val.assign", "val.move", "val.massign", "val.mutate", "val.eq", "val.selfset"}
+Ops == {"val.make", "val.copy", "val.assign", "val.move", "val.massign", "val.mutate", "val.eq", "val.selfset", "val.copyref"}
 
 Step ==
     /\ l <= Len(Log)
@@ -70,7 +72,7 @@ Step ==
               /\ live' = (fails = {})
               /\ store' = exp
               /\ cnt' = [cnt EXCEPT !.ops = @ + 1,
-                            !.copies = @ + (IF e.e = "val.copy" THEN 1 ELSE 0),
+                            !.copies = @ + (IF e.e \in {"val.copy", "val.copyref"} THEN 1 ELSE 0),
                             !.moves = @ + (IF e.e \in {"val.move", "val.massign"} THEN 1 ELSE 0),
                             !.assigns = @ + (IF e.e = "val.assign" THEN 1 ELSE 0),
                             !.self_assigns = @ + (IF e.e = "val.assign" /\ e.src = e.dst THEN 1 ELSE 0),
